@@ -89,10 +89,12 @@ def abbreviate_space_both(s):
 def parse_abbreviated_size(s):
     if s is None or s == "":
         return None
-    m = re.match(r"^(\d+)([KMGTPE]?[I]?[B]?)$", s.upper())
+    # the number may be separated from a (non-empty) suffix by whitespace: "100 M", "1024 Ki", "1048576 B"
+    m = re.match(r"^(\d+)(?:\s*([KMGTPE][I]?[B]?|[I][B]?|[B]))?$", s.upper())
     if not m:
         raise ValueError("unparseable value %s" % s)
     number, suffix = m.groups()
+    suffix = suffix or ""
     if suffix.endswith("B"):
         suffix = suffix[:-1]
     multiplier = {"":   1,
